@@ -164,8 +164,9 @@ def check_op(built, f, op, tier, timeout=120, cfg="default"):
         extra.append("(< %s %d)" % (A.smt(), q))
         if B is not None:
             extra.append("(< %s %d)" % (B.smt(), q))
-    # encoder self-check on concrete inputs
-    for it in range(6):
+    # encoder self-check on concrete inputs (also the simulation samples for lemma discovery)
+    samples = []
+    for it in range(64):
         env = {}
         vals = boundary_values(f, rnd)
         for nm in ("a", "b"):
@@ -180,6 +181,7 @@ def check_op(built, f, op, tier, timeout=120, cfg="default"):
             raise MachineryError("integer encoder self-check failed for %s: %s" % (drv, e))
         if R.eval(ae) != limbs_int(T.evaluate(out, env)):
             raise MachineryError("integer encoder value mismatch for %s" % drv)
+        samples.append(ae)
     # the congruence to prove, as (lhs, rhs): lhs == rhs mod q
     RR = f.R
     mont = f.kind != "raw"
@@ -204,7 +206,7 @@ def check_op(built, f, op, tier, timeout=120, cfg="default"):
         return obs
     if mont and enc.prod_ops:
         extra += product_axioms(enc, f, ins)
-    res = PR.prove_congruence(enc, lhs, rhs, q, extra=extra, timeout=timeout)
+    res = PR.prove_congruence(enc, lhs, rhs, q, extra=extra, timeout=timeout, samples=samples)
     if res.status == "proved":
         ob.ok("z3-int (QF_LIA, %d lemmas)" % len(res.info.get("lemmas", [])), res.seconds, res.queries)
     else:
